@@ -105,38 +105,6 @@ Definition dec_wcall (v : val) : wcall :=
   end.
 Definition dec_cres (v : val) : cres := (as_n (nth_val 0 v), map dec_wcall (as_l (nth_val 1 v))).
 
-Fixpoint is_prefix_of (p s : bytes) : bool :=
-  match p, s with
-  | [], _ => true
-  | x :: p', y :: s' => (x =? y)%N && is_prefix_of p' s'
-  | _, [] => false
-  end.
-
-(* The calls of one session, in order, with the log before them:
-   - a Send's accepted bytes are the message's encoding if it returned nil, a prefix of it otherwise;
-   - a Flush that returned nil leaves a successful writer flush after the last Write;
-   - every call returns the first error the writer answered during it (nil if none). *)
-Fixpoint calls_ok (before : list wcall) (calls : list scall) (rs : list cres) : bool :=
-  match calls, rs with
-  | [], [] => true
-  | c :: calls', (e, seg) :: rs' =>
-      (e =? first_error seg)%N &&
-      match c with
-      | CSend m =>
-          match wire m with
-          | Some w => if (e =? 0)%N then bytes_eqb (accepted seg) w else is_prefix_of (accepted seg) w
-          | None => false
-          end
-      | CFlush =>
-          bytes_eqb (accepted seg) [] && (if (e =? 0)%N then flushed false (before ++ seg) else true)
-      end &&
-      calls_ok (before ++ seg) calls' rs'
-  | _, _ => false
-  end.
-
-Definition session_ok (calls : list scall) (rs : list cres) : bool :=
-  match urun UNone (full_log rs) with Some _ => true | None => false end && calls_ok [] calls rs.
-
 Definition has_write_header (code : N) (l : list wcall) : bool :=
   existsb (fun c => match c with LWriteHeader c' => (c' =? code)%N | _ => false end) l.
 
